@@ -103,7 +103,7 @@ struct D4B<'a> {
 }
 
 #[derive(Default, Clone, Debug)]
-pub struct GenStats { pub or_true: u32, pub ors: u32, pub nary_ors: u32, pub single_ors: u32, pub ands: u32, pub shared: u32, pub f_edges: u32, pub implied: u32 }
+pub struct GenStats { pub dead_subcircuits: u32, pub or_true: u32, pub ors: u32, pub nary_ors: u32, pub single_ors: u32, pub ands: u32, pub shared: u32, pub f_edges: u32, pub implied: u32 }
 
 impl<'a> D4B<'a> {
     fn node(&mut self, k: char) -> usize { self.kinds.push(k); self.kinds.len() - 1 }
@@ -117,6 +117,32 @@ impl<'a> D4B<'a> {
     }
     fn subset(&mut self, vars: &[u32], keep: f64) -> Vec<u32> {
         vars.iter().copied().filter(|_| self.rng.chance(keep)).collect()
+    }
+    /// an unsatisfiable node that is not the False leaf: a decision whose alternatives all end in `f`
+    /// (or that has none), possibly below an and-node next to a satisfiable sibling
+    fn dead_node(&mut self, vars: &[u32], depth: u32) -> usize {
+        let o = self.node('o');
+        self.stats.ors += 1;
+        let mut used = 0i32;
+        if !vars.is_empty() && self.rng.chance(0.7) {
+            let x = *self.rng.pick(vars) as i32;
+            used = x;
+            let f = self.f();
+            self.edges.push((o, f, vec![x]));
+            if self.rng.chance(0.6) { self.edges.push((o, f, vec![-x])); }
+            self.stats.f_edges += 1;
+        }
+        if vars.len() >= 2 && self.rng.chance(0.5) {
+            // and(dead, live sibling over other variables)
+            let a = self.node('a');
+            self.stats.ands += 1;
+            let sib_vars: Vec<u32> = vars.iter().copied().filter(|&v| v as i32 != used && self.rng.chance(0.6)).collect();
+            let sib = self.gen(&sib_vars, depth.saturating_sub(1), false);
+            if self.rng.chance(0.5) { self.edges.push((a, o, vec![])); self.edges.push((a, sib, vec![])); }
+            else { self.edges.push((a, sib, vec![])); self.edges.push((a, o, vec![])); }
+            return a;
+        }
+        o
     }
     /// returns a satisfiable node whose mentioned variables are within `vars`
     fn gen(&mut self, vars: &[u32], depth: u32, is_root: bool) -> usize {
@@ -194,7 +220,14 @@ impl<'a> D4B<'a> {
             let dead = if self.rng.chance(0.12) { Some(self.rng.below(2)) } else { None };
             for (j, s) in [1i32, -1].into_iter().enumerate() {
                 if dead == Some(j) {
-                    if self.rng.chance(0.6) { let f = self.f(); self.edges.push((id, f, vec![s * x])); self.stats.f_edges += 1; }
+                    let w = self.rng.below(100);
+                    if w < 45 { let f = self.f(); self.edges.push((id, f, vec![s * x])); self.stats.f_edges += 1; }
+                    else if w < 75 {
+                        // the branch leads to a zero-count sub-circuit that is not a False leaf
+                        let z = self.dead_node(&rem, depth);
+                        self.edges.push((id, z, vec![s * x]));
+                        self.stats.dead_subcircuits += 1;
+                    }
                     continue;
                 }
                 let mut lab = vec![s * x];
@@ -318,7 +351,17 @@ impl<'a> C2B<'a> {
                 let mut branches = Vec::new();
                 let dead = if self.rng.chance(0.12) { Some(self.rng.below(2)) } else { None };
                 for (j, s) in [1i32, -1].into_iter().enumerate() {
-                    if dead == Some(j) { continue; }
+                    if dead == Some(j) {
+                        if self.rng.chance(0.5) {
+                            // a zero-count branch: and(literal, rest, False)
+                            let mut cs = vec![self.lit(s * x)];
+                            if !rem.is_empty() { let c = self.gen(&rem, depth - 1); cs.push(c); }
+                            let f = self.push("O 0 0".into(), 0);
+                            cs.push(f);
+                            branches.push(self.and(&cs));
+                        }
+                        continue;
+                    }
                     let mut rem_j = rem.clone();
                     let mut cs = vec![self.lit(s * x)];
                     if self.rng.chance(0.3) && rem_j.len() >= 2 {
